@@ -318,6 +318,12 @@ class C06:
             if lf:
                 self.lean_targets.append('SmoothProofs.Gen.C06All')
             self.translators += list(getattr(L, 'translators', []))
+        # source ties regenerated from the C++ on every check by tools/gen_bundle.py (fourth entry of vlib.run_translators):
+        # detail/bundle.hpp `BundleImpl` + utils::array_psum (SrcTieBundle), traits::lie of Eigen vectors / scalars / native
+        # groups (SrcTieRn); static aggregator SmoothProps/C06All.lean (imports C06, C06Layout and both tie files)
+        self.props_files += ['SmoothProps/SrcTieBundle.lean', 'SmoothProps/SrcTieRn.lean']
+        self.props_module = 'SmoothProps.C06All'
+        self.lean_targets.append('SmoothProps.C06All')
 
     # aggregator module so that one `import` reaches the theorems of both C06 files (axiom audit)
     def gen_c06all(self, ctx):
